@@ -95,4 +95,9 @@ extern int32_t n_phase, n_mul, n_ms, bad, g_wout; extern Torus32 g_seen_phase;
     __CPROVER_loop_invariant(0 <= i && i <= N && bad == 0 && n_ms == i) \
     __CPROVER_loop_invariant((i) > g_k ==> (result->coefs[g_k] == g_wout && g_seen_phase == testvec->coefsT[g_k])) \
     __CPROVER_decreases(N - i)
+/* torusPolynomialUniform: N uniform draws, one per coefficient */
+#define LOOP_torusPolynomialUniform_0(i) \
+    __CPROVER_assigns(i, __CPROVER_object_whole(result->coefsT), g_n_uniform_t32, g_rng_touched) \
+    __CPROVER_loop_invariant(0 <= i && i <= N && g_n_uniform_t32 == LENTRY(g_n_uniform_t32) + i) \
+    __CPROVER_decreases(N - i)
 #endif
